@@ -327,8 +327,13 @@ def correspond(ctx, proof_ok=True):
     ctx.coverage['coq_eval_s'] = round(cc.coq_seconds, 1)
     multi = 0
     cross = 0
+    asym = 0
     for n in idx:
         r = results[n]
+        rows = [int(x) for x in r['adj']]
+        if any(not (rows[a] >> a) & 1 for a in range(len(rows))) or \
+                any(((rows[a] >> b) & 1) != ((rows[b] >> a) & 1) for a in range(len(rows)) for b in range(a)):
+            asym += 1
         if max(r['ok'][1]) > 1:
             multi += 1
         rec = r.get('rec') or {}
@@ -347,6 +352,7 @@ def correspond(ctx, proof_ok=True):
         'cases_by_family_chunk_outcome': dist,
         'cases_with_a_group_of_2_or_more': multi,
         'cases_with_a_group_spanning_several_cells': cross,
+        'cases_with_asymmetric_or_irreflexive_adjacency': asym,   # hypotheses of C05_spheregroup_spec on the float link
         'skipped_near_threshold': skipped,
         'samples': [dict(cases[n], impl=results[n]['ok']) for n in idx[:3]],
     })
